@@ -15,14 +15,14 @@
 (* priorities, eviction order - is specified), and its stored size in capacity units.      *)
 (* Store ids are opaque: allocation is a parameter (`hint`), see Alloc.  The eviction heap *)
 (* is a priority queue: drop() removes the last transaction of an account with the         *)
-(* smallest (priority, tip) key, ties are nondeterministic.  Operators that may branch     *)
+(* smallest priority, ties are nondeterministic.  Operators that may branch                *)
 (* return sets.                                                                            *)
 EXTENDS Integers, Sequences, FiniteSets, TLC
 
 CONSTANTS Accts,          \* account names
           MaxPerAcct      \* maxTxsPerAccount (16)
 
-VARIABLES pool,           \* [idx, store, limbo, tip, hbf, hbl, st]  (see InitPool)
+VARIABLES pool,           \* [idx, store, limbo, tip, hbf, hbl, st, bad]  (see InitPool)
           cfg,            \* [cap, bump]: Datacap in size units, PriceBump
           blocks,         \* block tree: id -> [parent, num, txs, nonce, bal, bfj, blj]
           head,           \* block the pool was last reset to
@@ -59,6 +59,9 @@ Alloc(used, tx, hint) ==
          /\ i \notin used /\ i \notin Range(hint)
          /\ \A j \in 0..(i - 1) : j \in used \/ j \in Range(hint)
 StorePut(store, id, v) == [i \in DOMAIN store \cup {id} |-> IF i = id THEN v ELSE store[i]]
+(* store.Put never returns the id of a live entry: a branch that would need that (wrong guess of a   *)
+(* Go map iteration order against the observed ids) is marked bad and discarded by the actions        *)
+PutNew(p, id, v) == IF id \in DOMAIN p.store THEN [p EXCEPT !.bad = TRUE] ELSE [p EXCEPT !.store = StorePut(@, id, v)]
 StoreDel(store, ids)   == [i \in DOMAIN store \ ids |-> store[i]]
 
 (* ------------------------------ eviction thresholds and priorities ------------------------------ *)
@@ -72,10 +75,12 @@ EvBl(s, i)  == IF i = 1 THEN s[1].tx.blj ELSE Min(EvBl(s, i - 1), s[i].tx.blj)
 Prio1D(base, txj) == LET j == txj - base IN IF j <= 0 THEN FloorDiv(j, Unit) ELSE CeilDiv(j, Unit)
 Prio(hbf, bfj, hbl, blj) == Min(0, Min(Prio1D(hbf, bfj), Prio1D(hbl, blj)))
 
-(* the account's heap key: priority of its last transaction's thresholds, then the tip threshold *)
+(* the account's heap key: the priority of its last transaction's thresholds.  (The implementation *)
+(* breaks ties between equal priorities by the tip threshold, but re-sorts an account only when its  *)
+(* fee-jump thresholds change, so the tie-break can be stale; the property speaks of priorities, and *)
+(* among equal priorities any account may be the victim.)                                            *)
 KeyPrio(p, a) == Prio(p.hbf, EvBf(p.idx[a], Len(p.idx[a])), p.hbl, EvBl(p.idx[a], Len(p.idx[a])))
-KeyTip(p, a)  == EvTip(p.idx[a], Len(p.idx[a]))
-LessAcct(p, a, b) == KeyPrio(p, a) < KeyPrio(p, b) \/ (KeyPrio(p, a) = KeyPrio(p, b) /\ KeyTip(p, a) < KeyTip(p, b))
+LessAcct(p, a, b) == KeyPrio(p, a) < KeyPrio(p, b)
 Active(p) == {a \in Accts : p.idx[a] # <<>>}
 
 (* drop(): evict the last transaction of a worst account *)
@@ -120,9 +125,10 @@ AddOkS(p, tx, hint) ==
       off == tx.nonce - p.st.nonce[a] + 1
       id  == Alloc(DOMAIN p.store, tx, hint)
       e   == [tx |-> tx, id |-> id]
+      p0  == PutNew(p, id, tx)                 \* the new entry is written before the old one is deleted
       p1  == IF off <= Len(s)
-             THEN [p EXCEPT !.idx[a] = [s EXCEPT ![off] = e], !.store = StorePut(StoreDel(@, {s[off].id}), id, tx)]
-             ELSE [p EXCEPT !.idx[a] = Append(s, e), !.store = StorePut(@, id, tx)]
+             THEN [p0 EXCEPT !.idx[a] = [s EXCEPT ![off] = e], !.store = StoreDel(@, {s[off].id})]
+             ELSE [p0 EXCEPT !.idx[a] = Append(s, e)]
   IN DropWhileS(p1)
 
 (* ------------------------------ recheck ------------------------------ *)
@@ -135,7 +141,9 @@ SortSeqS(S) == IF S = {} THEN {<<>>}
 (* offload: an included transaction goes to the limbo if the chain included exactly it *)
 Offload(p, e, incl, hint) ==
   IF e.tx \in DOMAIN incl /\ \A x \in p.limbo : x.tx # e.tx
-  THEN [p EXCEPT !.limbo = @ \cup {[tx |-> e.tx, block |-> incl[e.tx], id |-> Alloc({x.id : x \in p.limbo}, e.tx, hint)]}]
+  THEN LET id == Alloc({x.id : x \in p.limbo}, e.tx, hint) IN
+       [p EXCEPT !.limbo = @ \cup {[tx |-> e.tx, block |-> incl[e.tx], id |-> id]},
+                 !.bad = @ \/ id \in {x.id : x \in p.limbo}]
   ELSE p
 RECURSIVE OffloadSeq(_, _, _, _)
 OffloadSeq(p, s, incl, hint) == IF s = <<>> THEN p ELSE OffloadSeq(Offload(p, Head(s), incl, hint), Tail(s), incl, hint)
@@ -188,7 +196,7 @@ Reinject(p, tx, hint) ==
   IF \E x \in p.limbo : x.tx = tx
   THEN LET x  == CHOOSE x \in p.limbo : x.tx = tx
            id == Alloc(DOMAIN p.store, tx, hint)
-       IN [p EXCEPT !.limbo = @ \ {x}, !.idx[tx.from] = Append(@, [tx |-> tx, id |-> id]), !.store = StorePut(@, id, tx)]
+       IN [PutNew(p, id, tx) EXCEPT !.limbo = @ \ {x}, !.idx[tx.from] = Append(@, [tx |-> tx, id |-> id])]
   ELSE p
 RECURSIVE ReinjectSeq(_, _, _)
 ReinjectSeq(p, s, hint) == IF s = <<>> THEN p ELSE ReinjectSeq(Reinject(p, Head(s), hint), Tail(s), hint)
@@ -197,7 +205,9 @@ ReinjectSeq(p, s, hint) == IF s = <<>> THEN p ELSE ReinjectSeq(Reinject(p, Head(
 LimboUpdate(p, tx, block, hint) ==
   IF \E x \in p.limbo : x.tx = tx /\ x.block # block
   THEN LET x == CHOOSE x \in p.limbo : x.tx = tx IN
-       [p EXCEPT !.limbo = (@ \ {x}) \cup {[tx |-> tx, block |-> block, id |-> Alloc({y.id : y \in p.limbo} \ {x.id}, tx, hint)]}]
+       LET id == Alloc({y.id : y \in p.limbo} \ {x.id}, tx, hint) IN
+       [p EXCEPT !.limbo = (@ \ {x}) \cup {[tx |-> tx, block |-> block, id |-> id]},
+                 !.bad = @ \/ id \in ({y.id : y \in p.limbo} \ {x.id})]
   ELSE p
 
 RECURSIVE PerAcctS(_, _, _, _, _, _)
@@ -214,7 +224,8 @@ PerAcctS(p, as, disc, incl, inclmap, hint) ==
                  : q \in RecheckS(ReinjectSeq(Upd(p, again), lost, hint), a, TRUE, inclmap, hint)}
 
 (* NOTE on evaluation order: reorg() first updates the limbo for every transactor, Reset then *)
-(* reinjects and rechecks account by account; the per-account effects commute.                  *)
+(* reinjects and rechecks account by account in Go map order; the per-account effects commute *)
+(* except for the reuse of freed store ids, so every order is a possible behaviour.            *)
 ResetS(p, B, old, new, fin, hint) ==
   LET b  == B[new]
       p0 == [p EXCEPT !.st = [nonce |-> b.nonce, bal |-> b.bal]]
@@ -223,9 +234,8 @@ ResetS(p, B, old, new, fin, hint) ==
                      LET i == CHOOSE i \in DOMAIN w.incl : w.incl[i].tx = t /\ \A j \in DOMAIN w.incl : w.incl[j].tx = t => j <= i
                      IN w.incl[i].block]
       trans == {t.from : t \in Range(w.disc)} \cup {w.incl[i].tx.from : i \in DOMAIN w.incl}
-      as == CHOOSE s \in Perms(trans) : TRUE
   IN {[q EXCEPT !.limbo = {x \in @ : x.block > fin}, !.hbf = b.bfj, !.hbl = b.blj]
-      : q \in PerAcctS(p0, as, w.disc, w.incl, inclmap, hint)}
+      : q \in {q \in UNION {PerAcctS(p0, as, w.disc, w.incl, inclmap, hint) : as \in Perms(trans)} : ~q.bad}}
 
 (* ------------------------------ SetGasTip ------------------------------ *)
 (* the first transaction below the tip and everything after it leaves the pool *)
@@ -237,35 +247,36 @@ TipFilter(p, t) ==
                !.store = StoreDel(@, {e.id : e \in AllEntries(p.idx)} \ {e.id : e \in AllEntries(idx2)})]
 
 (* ------------------------------ Init on a directory ------------------------------ *)
-(* disk / ldisk: the entries found in the queue store and in the limbo store.  Duplicate hashes are *)
-(* rejected in arrival (id) order, every account is rechecked, the tip filter and the capacity      *)
-(* limit are applied, the limbo is indexed (duplicates dropped).                                     *)
-RECURSIVE TrackSeq(_, _)
-TrackSeq(p, s) ==
-  IF s = <<>> THEN p
-  ELSE LET e == Head(s) IN
-       IF \E x \in AllEntries(p.idx) : x.tx = e.tx THEN TrackSeq(p, Tail(s))
-       ELSE TrackSeq([p EXCEPT !.idx[e.tx.from] = Append(@, e), !.store = StorePut(@, e.id, e.tx)], Tail(s))
-
-RECURSIVE ById(_)
-ById(S) == IF S = {} THEN <<>> ELSE LET e == CHOOSE e \in S : \A f \in S : e.id <= f.id IN <<e>> \o ById(S \ {e})
+(* dtxs: the transactions found in the queue store, ldisk: the [tx, block] pairs found in the limbo *)
+(* store.  billy compacts its files when they are opened, so store ids are assigned afresh (hint).  *)
+(* A transaction found twice is tracked once, every account is rechecked, the tip filter and the    *)
+(* capacity limit are applied; the limbo keeps one entry per transaction.                           *)
+RECURSIVE TrackAll(_, _, _)
+TrackAll(p, S, hint) ==
+  IF S = {} THEN p
+  ELSE LET t  == CHOOSE t \in S : TRUE
+           id == Alloc(DOMAIN p.store, t, hint)
+       IN TrackAll([PutNew(p, id, t) EXCEPT !.idx[t.from] = Append(@, [tx |-> t, id |-> id])], S \ {t}, hint)
 
 RECURSIVE RecheckAllS(_, _)
 RecheckAllS(p, as) == IF as = <<>> THEN {p} ELSE UNION {RecheckAllS(q, Tail(as)) : q \in RecheckS(p, Head(as), FALSE, <<>>, <<>>)}
 
-RECURSIVE LimboSeq(_, _)
-LimboSeq(L, s) == IF s = <<>> THEN L
-                  ELSE IF \E x \in L : x.tx = Head(s).tx THEN LimboSeq(L, Tail(s)) ELSE LimboSeq(L \cup {Head(s)}, Tail(s))
+RECURSIVE LimboPickS(_, _, _)
+LimboPickS(L, S, hint) ==
+  IF S = {} THEN {L}
+  ELSE LET t == (CHOOSE x \in S : TRUE).tx IN
+       UNION {LimboPickS(L \cup {[tx |-> t, block |-> x.block, id |-> Alloc({y.id : y \in L}, t, hint)]},
+                         {y \in S : y.tx # t}, hint) : x \in {x \in S : x.tx = t}}
 
-OpenS(p, disk, ldisk) ==
+OpenS(p, dtxs, ldisk, hint) ==
   LET e0 == [p EXCEPT !.idx = [a \in Accts |-> <<>>], !.store = <<>>, !.limbo = {}]
-      p1 == TrackSeq(e0, ById(disk))
-  IN UNION {DropWhileS([TipFilter(q, p.tip) EXCEPT !.limbo = LimboSeq({}, ById(ldisk))])
+      p1 == TrackAll(e0, dtxs, hint)
+  IN UNION {UNION {DropWhileS([TipFilter(q, p.tip) EXCEPT !.limbo = L]) : L \in LimboPickS({}, ldisk, hint)}
             : q \in RecheckAllS(p1, CHOOSE s \in Perms(Accts) : TRUE)}
 
 (* ------------------------------ the actions ------------------------------ *)
 InitPool(st, bfj, blj) ==
-  [idx |-> [a \in Accts |-> <<>>], store |-> <<>>, limbo |-> {}, tip |-> 1, hbf |-> bfj, hbl |-> blj, st |-> st]
+  [idx |-> [a \in Accts |-> <<>>], store |-> <<>>, limbo |-> {}, tip |-> 1, hbf |-> bfj, hbl |-> blj, st |-> st, bad |-> FALSE]
 
 (* the retention obligation: pooled transactions the new canonical branch includes above finality;   *)
 (* obligations end with finality or when the transaction is reorged out again                         *)
@@ -280,7 +291,7 @@ Add(tx, hint) ==
      THEN UNCHANGED pool /\ last' = [op |-> "add", err |-> "tip_low"]
      ELSE LET v == Validate(pool, tx) IN
           IF v # "ok" THEN UNCHANGED pool /\ last' = [op |-> "add", err |-> v]
-          ELSE pool' \in AddOkS(pool, tx, hint) /\ last' = [op |-> "add", err |-> "ok"]
+          ELSE pool' \in {q \in AddOkS(pool, tx, hint) : ~q.bad} /\ last' = [op |-> "add", err |-> "ok"]
 
 Reset(new, B, fin, hint) ==
   /\ blocks' = B /\ head' = new /\ final' = fin
@@ -298,18 +309,20 @@ SetGasTip(t) ==
   /\ last' = [op |-> "settip", err |-> "ok"]
 
 (* Close + New + Init on the same directory: what is on disk is exactly the live entries *)
-Reopen ==
+PoolTxs(P)   == {e.tx : e \in AllEntries(P.idx)}
+LimboTxs(P)  == {[tx |-> x.tx, block |-> x.block] : x \in P.limbo}
+Reopen(hint) ==
   /\ UNCHANGED <<cfg, blocks, head, final, owed>>
-  /\ pool' \in OpenS(pool, AllEntries(pool.idx), pool.limbo)
+  /\ pool' \in {q \in OpenS(pool, PoolTxs(pool), LimboTxs(pool), hint) : ~q.bad}
   /\ last' = [op |-> "reopen", err |-> "ok"]
 
 (* Init on a copy of the directory of the running pool.  Everything acknowledged is on disk (Put is  *)
 (* written through); entries deleted earlier may still be there (ghosts).                            *)
-CrashReopen(disk, ldisk) ==
-  /\ AllEntries(pool.idx) \subseteq disk
-  /\ pool.limbo \subseteq ldisk
+CrashReopen(dtxs, ldisk, hint) ==
+  /\ PoolTxs(pool) \subseteq dtxs
+  /\ LimboTxs(pool) \subseteq ldisk
   /\ UNCHANGED <<cfg, blocks, head, final, owed>>
-  /\ pool' \in OpenS(pool, disk, ldisk)
+  /\ pool' \in {q \in OpenS(pool, dtxs, ldisk, hint) : ~q.bad}
   /\ last' = [op |-> "crash", err |-> "ok"]
 
 (* ------------------------------ the property (C42) ------------------------------ *)
@@ -335,7 +348,9 @@ TipRespected == [][(last'.op = "settip" /\ pool'.tip > pool.tip) => \A e \in All
 (* reopening the pool reproduces the same contents *)
 (* (Init filters by the configured tip and evicts down to the capacity, which matters only after a *)
 (* Reset reinjected transactions below the tip or beyond the capacity; nothing else may change)   *)
-ReopenReproduces == [][last'.op = "reopen" => pool' \in DropWhileS(TipFilter(pool, pool.tip))]_vars
+(* store ids are not part of the contents: billy compacts its files on opening                     *)
+Contents(P) == [idx |-> [a \in Accts |-> [i \in DOMAIN P.idx[a] |-> P.idx[a][i].tx]], limbo |-> LimboTxs(P)]
+ReopenReproduces == [][last'.op = "reopen" => \E q \in DropWhileS(TipFilter(pool, pool.tip)) : Contents(pool') = Contents(q)]_vars
 (* After an abrupt stop the directory may also hold entries that had been deleted (billy does not    *)
 (* journal deletes), so the contents need not be reproduced; what is required is stated in            *)
 (* CrashReopen: every acknowledged entry is on disk, Init recovers exactly Open(disk), and all         *)
